@@ -10,11 +10,11 @@ RULE = ("E-INPUT: every dataset of <= 2 (thorough <= 3) data as sequences (each 
         "widths {20,55} x text {absent,'ab','<&>\"e-acute'}, for numeric times on a LinearScale and for datetime/date values "
         "(4 with a time of day, a date, a month end) on a TimeScale (caller-supplied, or the library default for directions up/left with default engine options); plus bare datetime.time data and a seeded time; x 4 "
         "directions x domain {derived, explicit} x 5 engine option sets (one of them also with a custom timeFn accessor over records whose 'time' field holds another value) x 2 (size, layer gap, padding, margin, tick display) "
-        "x 2 back-ends. Each case = real Timeline(...).export(), parsed (R-SVG/R-TIKZ), compared with the affine model of the "
+        "x 2 back-ends; plus 4-datum sets on axes of ~2000 and ~40000 units with 4 explicit domains. Each case = real Timeline(...).export(), parsed (R-SVG/R-TIKZ), compared with the affine model of the "
         "caller's own data. Non-trivial: >= 2 layers or a displaced label.")
-ASSUMPTIONS = ["explicit widths only (no LaTeX in the image)", "the tick instants are the ones the timeline's scale reports",
+ASSUMPTIONS = ["explicit widths only (no LaTeX in the image)", "the drawn ticks are the ticks the timeline's scale reports for some requested count 1..100 (the default first), with the formatter of that count",
                "margin scopes are not compared (documented TikZ limitation)"]
-REQUIRED_COUNTERS = ("exports", "multi_layer", "displaced", "time_of_day_data", "text_special", "default_scale_exports", "custom_time_accessor_exports")
+REQUIRED_COUNTERS = ("exports", "multi_layer", "displaced", "time_of_day_data", "text_special", "default_scale_exports", "custom_time_accessor_exports", "long_axis_exports")
 
 
 def bounds(tier, seed):
@@ -31,7 +31,7 @@ def configs():
     for direction in dc.DIRECTIONS:
         for domain in (False, True):
             for ei in range(len(dc.ENGINE)):
-                for si in range(len(dc.SIZES)):
+                for si in range(dc.N_BASE_SIZES):
                     out.append((direction, domain, ei, si, si == 0))
     return out
 
@@ -160,6 +160,18 @@ def run_shard(shard):
                     acc.trans += 1
                     if bad and bad[0] != "SKIP":
                         acc.violation(case, bad[0] + ":timeFn", bad[1], order=(len(data), di, ci, backend, 1))
+    if shard["kind"] == "seed":  # long axes: ~2000 and ~40000 units, explicit domains
+        for kind in ("lin", "time"):
+            for li, (si, direction, dom, data) in enumerate(dc.long_axis_cases(kind)):
+                for backend in ("svg", "tex"):
+                    case = {"kind": kind, "data": data, "cfg": [direction, dom, 1 if li % 2 else 0, si, True], "backend": backend}
+                    bad = judge(case, acc)
+                    acc.evals += 1
+                    acc.trans += 1
+                    acc.states += 1
+                    acc.counters["long_axis_exports"] += 1
+                    if bad and bad[0] != "SKIP":
+                        acc.violation(case, bad[0], bad[1], order=(9, li, 0, backend))
     if case:
         acc.sample(case)
     return acc
